@@ -65,6 +65,30 @@ func (fx *FnCtx) oneGlobal(g *ssa.Global) {
 						continue
 					}
 					if ce, ok := vs.Values[i].(*ast.CallExpr); ok {
+						// var x = []byte("literal"): length and bytes of the initial value (the slice is never stored to
+						// as a variable; its elements are covered by the frame like any other []byte)
+						if at, ok := ce.Fun.(*ast.ArrayType); ok && at.Len == nil && len(ce.Args) == 1 {
+							if tv, ok := info.Types[ce.Args[0]]; ok && tv.Value != nil && tv.Value.Kind() == constant.String {
+								if st, ok := deref(g.Type()).Underlying().(*types.Slice); ok {
+									if bt, ok := st.Elem().Underlying().(*types.Basic); ok && bt.Kind() == types.Uint8 {
+										str := constant.StringVal(tv.Value)
+										gname := "G$" + g.Pkg.Pkg.Name() + "." + g.Name()
+										gv := fx.entry.getHeap(P, gname, "Slice")
+										es := P.sorts.sortOf(st.Elem())
+										h := fx.entry.getHeap(P, elemComp(st.Elem()), elemSort(P, st.Elem()))
+										inner := app(fmt.Sprintf("(Array Int %s)", es), "select", h, app("Int", "s_arr", gv))
+										fx.assumeDef(and(eq(app("Int", "s_len", gv), intLit(int64(len(str)))), eq(app("Int", "s_off", gv), Term{"0", "Int"}),
+											app("Bool", "<", Term{"0", "Int"}, app("Int", "s_arr", gv)), app("Bool", "<", app("Int", "s_arr", gv), Term{"next0", "Int"}),
+											app("Bool", "slice_ok", gv)))
+										for k := 0; k < len(str); k++ {
+											fx.assumeDef(eq(app(es, "select", inner, eidx(gv, intLit(int64(k)))), intLit(int64(str[k]))))
+										}
+										fx.notes[fmt.Sprintf("initial value of %s.%s taken from its []byte(%q) initialiser; no store to the variable exists outside init and no function under contract writes its elements (frame)", g.Pkg.Pkg.Name(), g.Name(), str)] = true
+									}
+								}
+							}
+							continue
+						}
 						// var errX = errors.New(...) / fmt.Errorf(...): a non-nil error that is never reassigned
 						if se, ok := ce.Fun.(*ast.SelectorExpr); ok {
 							if id, ok := se.X.(*ast.Ident); ok && ((id.Name == "errors" && se.Sel.Name == "New") || (id.Name == "fmt" && se.Sel.Name == "Errorf")) {
